@@ -31,8 +31,7 @@ import TensorModel.Ext.Hooks
                                                 NextValidity), V I Y (to exhaustion), r f x c d
     `mdump $a [$op…]`                           dump + soft flag + `lmask` (MaskAt at every coordinate) +
                                                 `velems` (elements, `?` where a listed operand is masked)
-    `mmat $a`, `mtranspose $a`, `mapply $a [opts]`   Materialize / Transpose / Apply with this family's
-                                                known-defect tags (F85, F87)
+    `mmat $a`, `mtranspose $a`, `mapply $a [opts]`   Materialize / Transpose / Apply on masked tensors
 -/
 namespace TM
 namespace Mask
@@ -295,7 +294,7 @@ def MIt.nextValid (s : St) (it : MIt) : Res ItRes :=
   | none =>
     let f := it.it
     if f.done then pure ⟨it, -1, 1, false⟩
-    else if f.isScalar then pure ⟨{ it with it := { f with done := true } }, 0, 0, true⟩
+    else if f.isScalar then pure ⟨{ it with it := { f with done := true } }, 0, (if f.reverse then -1 else 1), true⟩
     else match f.next with
       | (f', some i) => pure ⟨{ it with it := f' }, i, (if f.reverse then -1 else 1), true⟩
       | (f', none) => pure ⟨{ it with it := f' }, -1, 1, false⟩
@@ -306,8 +305,9 @@ def MIt.nextInvalid (s : St) (it : MIt) : Res ItRes :=
     let (f, i, c, ok) ← scanMask s m true it.fuel it.it 0
     pure ⟨{ it with it := f }, i, (if it.it.reverse then -c else c), ok⟩
   | none =>
+    -- no invalid element: `it.done = true`, the skip count is the distance to the end
     let f := it.it
-    pure ⟨it, -1, (if f.reverse then -f.lastIndex else f.size - f.lastIndex), false⟩
+    pure ⟨{ it with it := { f with done := true } }, -1, (if f.reverse then -f.lastIndex else f.size - f.lastIndex), false⟩
 
 /-- `NextValidity`: (iterator, offset, valid); `none` = exhausted -/
 def MIt.nextValidity (s : St) (it : MIt) : Res (MIt × Option (Int × Bool)) :=
@@ -379,12 +379,8 @@ def maskedReduce (s : St) (t : Dense) (kind : String) (axis : List Int) : Res QR
     if ax ≥ t.dims then return .scalar (-1)
     if ax < 0 then throwPanic "slices[ax]: index out of range"
     let axn := ax.toNat
-    let nils : List (Option Sl) := List.replicate t.dims none
-    -- `tt, _ := t.Slice(slices...)` with `slices[ax] = makeRS(0, 0)`; `tt.(*Dense)` panics on a nil view
-    let ts ← (match t.slice (nils.set axn (some ⟨0, 0, 1⟩)) with
-      | .ok v => pure v
-      | .error _ => throwPanic "interface conversion: tensor.View is nil" : Res Dense)
-    let rshape := ts.shape
+    -- the result shape is the shape without the axis
+    let rshape := t.shape.eraseIdx axn
     let rstrides := calcStrides rshape
     let n := if rshape.isEmpty then 1 else (totalSize rshape).toNat
     let axd ← idx t.shape ax "t.shape[ax]"
@@ -393,10 +389,11 @@ def maskedReduce (s : St) (t : Dense) (kind : String) (axis : List Int) : Res QR
       match fuel with
       | 0 => pure ret
       | fuel + 1 =>
+        -- `copy(coord, it.Coord())` before `it.Next()`: the coordinates of the element `Next` returns
+        let coord := it.track
         match it.next with
         | (_, none) => pure ret
         | (it', some _) => do
-          let coord := it'.track
           -- slices[d] = makeRS(coord[k], coord[k]+1) for d ≠ ax; `slices[ax]` was set to the full
           -- range before the loop and becomes nil inside it
           let rec build (d k : Nat) (n : Nat) (acc : List (Option Sl)) : Res (List (Option Sl)) :=
@@ -427,7 +424,7 @@ def QRes.show : QRes → String
   | .arr sh vals => s!"q={showInts vals} qshape={showInts sh}"
 
 /-- the finders on a tensor without mask: `IteratorFromDense` is a plain `FlatIterator`, whose
-    `NextInvalid` never advances -/
+    `NextInvalid` finds nothing and exhausts the iterator -/
 def flatRunsPlain (s : St) (t : Dense) (masked : Bool) : Res (List (Int × Int)) := do
   let size := t.size
   let rec loop (fuel : Nat) (it : MIt) (acc : List (Int × Int)) : Res (List (Int × Int)) :=
@@ -451,7 +448,7 @@ def flatRuns (s : St) (t : Dense) (masked : Bool) : Res (List (Int × Int)) := d
 
 /-- `FlatNotMaskedEdges` (`masked = false`) / `FlatMaskedEdges` (`masked = true`) -/
 def flatEdges (s : St) (t : Dense) (masked : Bool) : Res (Int × Int) := do
-  if !t.isMasked then return (0, t.size - 1)
+  if !t.isMasked then return (if masked then (-1, -1) else (0, t.size - 1))
   let it := iterFromDense t
   let it : MIt := { it with it := (← it.it.setForward) }
   let a ← (if masked then it.nextInvalid s else it.nextValid s)
@@ -464,20 +461,13 @@ def flatEdges (s : St) (t : Dense) (masked : Bool) : Res (Int × Int) := do
 
 def fillDefault : Val := .app1 "fillv" .zero
 
-/-- the fill loop of `Filled` / `FilledInplace` on tensor `tc` (mask read from `t`) -/
-def fillLoop (s : St) (t tc : Dense) (v : Val) : Res St := do
+/-- the fill loop of `Filled` / `FilledInplace` on tensor `tc`: scalars test `mask[0]`, every other
+    shape (row and column vectors included) walks `NextInvalid` -/
+def fillLoop (s : St) (tc : Dense) (v : Val) : Res St := do
   if isScalar tc.shape then
     match tc.mask with
     | some m => if (← s.mget m 0) then s.set tc.win 0 v else pure s
     | none => throwPanic "mask[0]"
-  else if isRowVec tc.shape || isColVec tc.shape then
-    -- `tt, err := tc.Slice(nil, sl); if err != nil { ts := tt.(*Dense); ts.Memset(fillval) }`
-    let runs ← flatRuns s t true
-    runs.foldlM (fun s (a, b) =>
-      match tc.slice [none, some ⟨a, b, 1⟩] with
-      | .ok _ => pure s
-      | .error (.err _) => throwPanic "interface conversion: tensor.View is nil"
-      | .error (.panic p) => throwPanic p) s
   else
     -- `for i, _, err := it.NextInvalid(); err == nil; … { tc.Set(i, fillval) }`
     match (iterFromDense tc).mask with
@@ -490,13 +480,13 @@ def fillLoop (s : St) (t tc : Dense) (v : Val) : Res St := do
 def filled (s : St) (t : Dense) (v : Val) : Res (St × Dense) := do
   let (s, tc) ← t.clone s
   if !t.isMasked then return (s, tc)
-  let s ← fillLoop s t tc v
+  let s ← fillLoop s tc v
   pure (s, tc)
 
 /-- `FilledInplace(val...)` -/
 def filledInplace (s : St) (t : Dense) (v : Val) : Res St := do
   if !t.isMasked then return s
-  fillLoop s t t v
+  fillLoop s t v
 
 /-! ## iteration scripts -/
 
@@ -564,9 +554,8 @@ def transposeMask (s : St) (t : Dense) : Res St := do
     if vals.length > m.len then throwPanic "tmp[j]: index out of range" else
     writeMask s m (vals ++ List.replicate (m.len - vals.length) false)
 
-/-- `(*Dense).Transpose()` as `Dense.transpose`, with the element-type test of `denseTranspose`
-    spelled with this framework's type name: string tensors take `denseTransposeString`, which does
-    not call `transposeMask`. -/
+/-- `(*Dense).Transpose()` as `Dense.transpose`: `denseTranspose` calls `transposeMask` for every
+    element type, then gathers the data. -/
 def transposeM (s : St) (t : Dense) : Res (St × Dense) := do
   match t.old with
   | none => pure (s, t)
@@ -575,7 +564,7 @@ def transposeM (s : St) (t : Dense) : Res (St × Dense) := do
     let exp := Dense.defaultStrides t.ap.o.col t.shape
     let done : Dense := { t with ap := { t.ap with strides := Dense.copyPrefix t.ap.strides exp }, old := none, tw := none }
     if isVector t.shape then pure (s, done) else
-    let s ← (if t.dt == "str" then pure s else transposeMask s t)
+    let s ← transposeMask s t
     let s ← Dense.gatherCopy s t
     pure (s, done)
 
@@ -1012,44 +1001,10 @@ def Excl_predNoArm (op dt : String) : Bool := (op == "eq" || op == "ne") && ["b"
     offsets*; they are flat indices only when the tensor is walked in storage order. -/
 def Excl_runsStorageOffsets (t : Dense) : Bool := t.isMasked && t.offsets != rangeI t.size.toNat
 
-/-- F82: finders on a tensor that carries no mask: `FlatNotMaskedContiguous` / `ClumpUnmasked` return
-    one overlapping slice per element, `FlatMaskedEdges` returns `(0, size-1)`. -/
-def Excl_findersUnmasked (t : Dense) (kind : String) : Bool :=
-  !t.isMasked && (((kind == "notcontig" || kind == "clumpun") && t.size > 1) || kind == "edges")
-
-/-- F83: `Filled` / `FilledInplace` on row and column vectors: the slice-and-memset branch runs only
-    when slicing *fails* (then it panics on a nil view), so nothing is ever filled. -/
-def Excl_fillVector (t : Dense) : Bool := t.isMasked && (isRowVec t.shape || isColVec t.shape)
-
 /-- F84: per-axis `MaskedCount/NonMaskedCount/MaskedAny/MaskedAll`: the axis is ignored for row and
-    column vectors; the result shape is probed with the slice `[0:0)` on the axis, which asks for a
-    window end before the window start on views (panic); and when the result is walked by the
-    iterator's vector fast path the lane coordinates are read *after* `Next` (one past), so the last
-    lane slices out of range: panic. -/
+    column vectors (the whole-tensor scalar is returned). -/
 def Excl_reduceAxis (t : Dense) (ax : Int) : Bool :=
-  decide (0 ≤ ax) && decide (ax < t.dims) &&
-    ((t.dims == 2 && isVector t.shape) ||
-     (!isVector t.shape &&
-       ((match t.slice ((List.replicate t.dims none).set ax.toNat (some ⟨0, 0, 1⟩)) with
-         | .ok _ => false
-         | .error _ => true) ||
-        (let rsh := t.shape.eraseIdx ax.toNat
-         (FlatIt.new { shape := rsh, strides := calcStrides rsh, fin := true }).isVector))))
-
-/-- F85: `Materialize` (`copyDenseIter`) copies the mask in storage order while the elements are
-    copied in logical order: the mask of the result is misaligned (or lost, when the window is longer
-    than the size) unless the source is walked in storage order. -/
-def Excl_matMask (t : Dense) : Bool :=
-  t.isMasked && t.isMaterializable && t.offsets != rangeI t.win.len
-
-/-- F87: `denseTranspose` returns early for string tensors, before `transposeMask`: the elements
-    move, the mask does not. -/
-def Excl_transposeStrMask (t : Dense) : Bool :=
-  t.dt == "str" && t.isMasked && t.old.isSome && !isVector t.shape && !isScalar t.shape
-
-/-- F88: the unmasked `FlatIterator.NextValid` reports a skip of 0 for a scalar (1 everywhere else,
-    and 1 in the masked iterator). -/
-def Excl_plainScalarSkip (t : Dense) : Bool := !t.isMasked && isScalar t.shape
+  decide (0 ≤ ax) && decide (ax < t.dims) && t.dims == 2 && isVector t.shape
 
 def excl (ps : PState) (toks : List String) : List String × Bool :=
   let tag (b : Bool) (s : String) : List String := if b then [s] else []
@@ -1058,14 +1013,13 @@ def excl (ps : PState) (toks : List String) : List String × Bool :=
     match ps.obj v with
     | some (_, t) => (tag (Excl_predRawWindow t) "F80" ++ tag (Excl_predNoArm op t.dt) "F86", true)
     | none => ([], false)
-  | ["mruns", kind, v] =>
+  | ["mruns", _, v] =>
     match ps.obj v with
-    | some (_, t) => (tag (Excl_runsStorageOffsets t) "F81" ++ tag (Excl_findersUnmasked t kind) "F82" ++
-        tag (Excl_shortStrides t) "F24", false)
+    | some (_, t) => (tag (Excl_runsStorageOffsets t) "F81" ++ tag (Excl_shortStrides t) "F24", false)
     | none => ([], false)
   | ["filled", v, _, _] =>
     match ps.obj v with
-    | some (_, t) => (tag (Excl_fillVector t) "F83", true)
+    | some _ => ([], true)
     | none => ([], false)
   | ["mq", _, v, axis] =>
     match ps.obj v, parseIntList axis with
@@ -1073,23 +1027,20 @@ def excl (ps : PState) (toks : List String) : List String × Bool :=
     | _, _ => ([], false)
   | ["mmat", v] =>
     match ps.obj v with
-    | some (_, t) => (tag (Excl_matMask t) "F85", false)
+    | some _ => ([], false)
     | none => ([], false)
   | ["mtranspose", v] =>
     match ps.obj v with
-    | some (_, t) => (tag (Excl_transposeView t) "F5" ++ tag (Excl_transposeCol t) "F6" ++
-        tag (Excl_transposeStrMask t) "F87", true)
+    | some (_, t) => (tag (Excl_transposeView t) "F5" ++ tag (Excl_transposeCol t) "F6", true)
     | none => ([], false)
   | ["miter", v, _] =>
     match ps.obj v with
-    | some (_, t) => (tag (Excl_plainScalarSkip t) "F88" ++ tag (Excl_shortStrides t) "F24", false)
+    | some (_, t) => (tag (Excl_shortStrides t) "F24", false)
     | none => ([], false)
   | "mapply" :: v :: rest =>
-    -- `Dense.Apply` in safe mode materialises a materialisable operand first (F85); F34 as for `un apply`
-    let safe := !rest.contains "unsafe" && !rest.any (fun t => t.startsWith "reuse=" || t.startsWith "incr=")
+    -- F34 as for `un apply`
     match ps.obj v with
-    | some (_, t) => (tag (safe && Excl_matMask t) "F85" ++
-        tag (rest.any (fun t => t.startsWith "reuse=" || t.startsWith "incr=")) "F34", true)
+    | some _ => (tag (rest.any (fun t => t.startsWith "reuse=" || t.startsWith "incr=")) "F34", true)
     | none => ([], false)
   | _ => ([], false)
 
